@@ -77,6 +77,29 @@ def main(pid, tier, replay=None):
     res.notes["mc_mutation_sanity"] = dict(refuted=bool(r2["error"]))
     if not r2["error"]:
         raise core.ToolError("vacuity: the pre-fix guards were not refuted by the model")
+    # (1b) the same statement for ALL natural counts (no windows), by Apalache (SMT), length 0
+    import shutil
+    import subprocess
+    ad = os.path.join(res.wd, "apalache")
+    os.makedirs(ad, exist_ok=True)
+    shutil.copy(os.path.join(core.SPEC, "WidthApa.tla"), ad)
+    outs = {}
+    for inv in ("Inv", "InvOld"):
+        try:
+            p = subprocess.run(["timeout", "300", "apalache-mc", "check", "--length=0", "--inv=" + inv, "WidthApa.tla"], cwd=ad,
+                               stdout=subprocess.PIPE, stderr=subprocess.STDOUT, text=True)
+            outs[inv] = "noerror" if "The outcome is: NoError" in p.stdout else ("error" if "The outcome is: Error" in p.stdout else "unknown")
+        except OSError:
+            outs[inv] = "unavailable"
+    shutil.rmtree(ad, ignore_errors=True)
+    res.notes["apalache_unbounded"] = dict(outcome=outs, what="Init => (Refused \\/ NoWrap) for all natural counts and widths 8/16/32; "
+                                                             "InvOld (guards before the repair) must be refuted")
+    if outs["Inv"] == "error":
+        res.violation("WidthApa.tla: the guards do not imply no-wrap for all counts (Apalache counterexample)", dict(kind="apalache"))
+    elif outs["Inv"] == "noerror" and outs["InvOld"] == "noerror":
+        raise core.ToolError("vacuity: Apalache did not refute the pre-fix guards")
+    elif outs["Inv"] != "noerror":
+        res.cov["inconclusive"] += 1
     # (2) real builds
     insts = []
     if replay:
